@@ -173,12 +173,18 @@ package ratelimitmw
 //@             ri.QType == old(req.Question[0].Qtype) && ri.QClass == old(req.Question[0].Qclass)
 //@ pred ecsOptsNonNil(m *dns.Msg) = forall i int :: 0 <= i && i < len(m.Extra) && isOPT(m.Extra[i]) ==> optAt(m, i) != nil &&
 //@        (forall j int :: 0 <= j && j < len(optAt(m, i).Option) && isptr(optAt(m, i).Option[j], dns.EDNS0_SUBNET) ==> ref(optAt(m, i).Option[j]) != 0)
+// geoLocOf: what the GeoIP database says about an address (unchanged during a request).
+//@ fun geoLocOf(mw *Middleware, ip netip.Addr) *geoip.Location
 //@ func (*Middleware).locationData
 //@   modifies nothing
+//@   ensures l == geoLocOf(mw, ip)
 //@ func (*Middleware).location
-//@   property C05
+//@   property C05 C10
 //@   requires MW(mw) && req != nil && ecsOptsNonNil(req)
 //@   modifies ecsBad, ecsDataErrs
+// C10: access rules by ASN need the client's location - it is looked up
+// whatever the subnet option of the request looks like.
+//@   ensures the-clients-location-whatever-the-option: loc == geoLocOf(mw, remoteIP)
 //@   ensures a-malformed-option-is-an-error: ecsBad == (err != nil)
 //@   ensures only-a-malformed-option-is-an-error: err != nil ==> errAs(err, ptrtag(dnsmsg.BadECSError)) && ecs == nil
 //@   ensures err == nil && ecs != nil ==> fresh(ecs) && ecs.Subnet != zero(netip.Prefix)
